@@ -131,9 +131,10 @@ theorem select_order_independent (g : BuildGraph) (s : Selector) (h : Host) (o1 
   · intro sel1 c1 sel2 c2 hs1 hs2 x
     rw [select_eq_closure g s h o1 sel1 c1 h1 hs1, select_eq_closure g s h o2 sel2 c2 h2 hs2]
 
-/-- `only_selected_run` (no command of an unselected target runs) is the composition of `select_closed`
-    with the walker/execution model of C03–C05; stated here, proved there, sampled by tools/checks/c12.py
-    through real `grog build` traces. `ran` = the targets whose command ran in a build of the selection. -/
+/-- `only_selected_run` in its barest form: everything that ran was selected. The theorem
+    `C12.only_selected_run` (Props/Compose.lean) proves it — and more — for every reachable state of the
+    walker × pool-task models of C03–C05 built from a successful selection; tools/checks/c12.py samples it
+    through real `grog build` traces. `ran` = the targets whose task was queued or on a worker. -/
 def only_selected_run_statement (sel ran : List Nat) : Prop := ∀ t ∈ ran, t ∈ sel
 
 /-! ### the hypotheses are satisfiable, and the witnesses of the targeted cases -/
